@@ -360,6 +360,7 @@ type e2eCfg struct {
 	Compression     *int        `json:"compressionMinLength,omitempty"`
 	ReqAd           *e2eAdaptor `json:"reqAdaptor,omitempty"`
 	RespAd          *e2eAdaptor `json:"respAdaptor,omitempty"`
+	CacheSize       int         `json:"cacheSize,omitempty"` // HTTPServer route cache (0 = off)
 }
 
 func (a *e2eAdaptor) yaml(name, kind string) string {
@@ -424,6 +425,9 @@ func (c *e2eCfg) serverYAML() string {
 	b.WriteString("kind: HTTPServer\nname: e2e\nport: 18080\nkeepAlive: true\nhttps: false\n")
 	if c.ServerClientMax != 0 {
 		fmt.Fprintf(&b, "clientMaxBodySize: %d\n", c.ServerClientMax)
+	}
+	if c.CacheSize > 0 {
+		fmt.Fprintf(&b, "cacheSize: %d\n", c.CacheSize)
 	}
 	b.WriteString("rules:\n- paths:\n")
 	b.WriteString("  - pathPrefix: /lim/\n    backend: pl\n")
